@@ -24,7 +24,8 @@ pub fn generate(seed: u64, index: u64, thorough: bool) -> Scenario {
         ModelKind::Hand
     };
     let width = pick_width(&mut rng);
-    let model = gen_model(&mut rng, kind, if thorough { 5 } else { 4 }, 4);
+    let big = rng.chance(if thorough { 0.06 } else { 0.03 });
+    let model = gen_model(&mut rng, kind, if big { 7 } else if thorough { 5 } else { 4 }, if big { 6 } else { 4 });
     let mp = model.m() + model.nparams;
     // N relative to M+P: -3..+3 around the boundary, or comfortably large
     let delta: i64 = match rng.below(10) {
